@@ -1,0 +1,26 @@
+//go:build verif
+
+// Contracts for the verification machinery in /verif (comment-only; no declarations).
+//
+// C07 (tier B): the datastore-backed peerstore answers "which of these protocols does the peer support" with members
+// of the question only, in the order asked (interface promise used by BasicHost.preferredProtocol).
+
+package pstoreds
+
+//@ func (pb *dsProtoBook) SupportsProtocols
+//@ prop C07
+//@ opaque get
+//@ opaque getProtocolMap
+//@ loop 0 invariant 0 <= idx0 && idx0 <= len(protos) && len(res) <= idx0
+//@ loop 0 invariant forall j int :: 0 <= j && j < len(res) ==> (exists i int :: 0 <= i && i < idx0 && res[j] == protos[i])
+//@ ensures result1 == nil ==> len(result0) <= len(protos)
+//@ ensures result1 == nil ==> forall j int :: 0 <= j && j < len(result0) ==> (exists i int :: 0 <= i && i < len(protos) && result0[j] == protos[i])
+//@ noframe
+
+//@ func (pb *dsProtoBook) FirstSupportedProtocol
+//@ prop C07
+//@ opaque get
+//@ opaque getProtocolMap
+//@ loop 0 invariant 0 <= idx0 && idx0 <= len(protos)
+//@ ensures result0 == "" || (exists i int :: 0 <= i && i < len(protos) && result0 == protos[i])
+//@ noframe
